@@ -968,3 +968,49 @@ Proof.
   destruct (message_replaced_found s e rid lit flags mboxes allow m s1 sus W Hf Hl H) as [m1 [H1 [H2 H3]]].
   exists m1. unfold cu_announced_size. rewrite H2. auto.
 Qed.
+
+(* ---------- the protected mailbox ---------- *)
+(* an update that names the recovery mailbox — by remote id (MailboxCreated / MailboxDeleted / MailboxUpdated) or by
+   internal id (MailboxIDChanged) — is acknowledged with an error and changes nothing *)
+Lemma aimed_at_recovery_refused : forall s e u, cu_aimed_at_recovery s u = true -> cu_apply s e u = (s, AErr, []).
+Proof.
+  intros s e u H. unfold cu_apply. destruct u; simpl in H; try discriminate; simpl.
+  - rewrite H. reflexivity.
+  - rewrite H. reflexivity.
+  - rewrite H. reflexivity.
+  - destruct (cu_find_mb_id s iid) as [m|]; [rewrite H|]; reflexivity.
+Qed.
+
+(* whatever a mailbox update names and whatever its outcome: the recovery mailbox's entry (internal id, remote id, name,
+   UIDVALIDITY, subscription, flag sets) is in the mailbox table afterwards, as it was *)
+Lemma recovery_mailbox_kept : forall s e u s' a sus m, cu_wf s -> cu_mailbox_kind u = true ->
+  In m (st_mb s) -> mb_rid m = cu_recovery_rid -> cu_apply s e u = (s', a, sus) -> In m (st_mb s').
+Proof.
+  intros s e u s' a sus m W K Hin Hrid H. unfold cu_apply in H.
+  destruct u; simpl in K; try discriminate; simpl in H.
+  - (* MailboxCreated *)
+    destruct (rid =? cu_recovery_rid); [inversion H; subst; exact Hin|].
+    destruct (cu_find_mb_rid s rid); [inversion H; subst; exact Hin|].
+    destruct (e_uidv e); [inversion H; subst; exact Hin|].
+    destruct (cu_find_mb_name s (cu_canon_name name)); inversion H; subst; [exact Hin|].
+    simpl. apply in_or_app. left. exact Hin.
+  - (* MailboxDeleted *)
+    destruct (rid =? cu_recovery_rid) eqn:E; [inversion H; subst; exact Hin|].
+    destruct (cu_find_mb_rid s rid); inversion H; subst; [|exact Hin].
+    simpl. apply filter_In. split; [exact Hin|]. rewrite Hrid. rewrite N.eqb_sym. rewrite E. reflexivity.
+  - (* MailboxUpdated *)
+    destruct (rid =? cu_recovery_rid) eqn:E; [inversion H; subst; exact Hin|].
+    destruct (cu_find_mb_rid s rid) as [m0|]; [|inversion H; subst; exact Hin].
+    destruct (mb_name m0 =? cu_canon_name name); [inversion H; subst; exact Hin|].
+    destruct (existsb _ (st_mb s)); inversion H; subst; [exact Hin|].
+    simpl. apply in_map_iff. exists m. split; [|exact Hin].
+    rewrite Hrid. rewrite N.eqb_sym. rewrite E. reflexivity.
+  - (* MailboxIDChanged *)
+    destruct (cu_find_mb_id s iid) as [m0|] eqn:F; [|inversion H; subst; exact Hin].
+    destruct (mb_rid m0 =? cu_recovery_rid) eqn:E; [inversion H; subst; exact Hin|].
+    destruct (existsb _ (st_mb s)); inversion H; subst; [exact Hin|].
+    simpl. apply in_map_iff. exists m. split; [|exact Hin].
+    destruct (mb_id m =? iid) eqn:E2; [|reflexivity].
+    exfalso. apply N.eqb_eq in E2. pose proof (wf_mb_id s W m Hin) as F2. rewrite E2, F in F2.
+    inversion F2; subst m0. rewrite Hrid, N.eqb_refl in E. discriminate.
+Qed.
